@@ -18,6 +18,28 @@ pub fn linear_programs(dirs: &[String]) -> Vec<(String, axcut::syntax::Prog)> {
     out
 }
 
+/// C10 families: programs `main(n)` that build and drop a structure n times; the case carries the
+/// iteration counts so that the model side can compare the allocation frontier across them.
+pub fn cmd_c10(which: &str, _seed: u64, _n: usize, out: &mut dyn Write, dirs: &[String]) {
+    let verif = pipe::verif_root();
+    let dirs: Vec<String> = if dirs.is_empty() { vec![format!("{verif}/corpus/c10")] } else { dirs.to_vec() };
+    for (k, (name, prog)) in linear_programs(&dirs).into_iter().enumerate() {
+        let lc = axcut2backend::fresh_labels::fresh_label();
+        let input = format!("({} {} {} ((2) (8) (32)))", crate::sexp::quote(&name), dbg(&prog), lc);
+        let p2 = prog.clone();
+        let w = which.to_string();
+        let res = catch(move || match w.as_str() {
+            "x86" => {
+                let a = compile::<axcut2x86_64::Backend, _, _, _>(p2);
+                let r = axcut2x86_64::into_routine::into_x86_64_routine(a);
+                format!("({} {})", dbg(&r.instructions), r.number_of_arguments)
+            }
+            _ => panic!("unknown backend"),
+        });
+        writeln!(out, "(case {k} {input} {res})").unwrap();
+    }
+}
+
 pub fn cmd_codegen(which: &str, _seed: u64, _n: usize, out: &mut dyn Write, dirs: &[String]) {
     for (k, (name, prog)) in linear_programs(dirs).into_iter().enumerate() {
         let lc = axcut2backend::fresh_labels::fresh_label();
